@@ -150,6 +150,11 @@ def run(ctx):
     if ctx.thorough:
         menu += [("k2b", [L], 1), ("k3a", [L], 1), ("k2mat", [L], 0), ("k2eps", [L], 0)]
     ps = ml.e2_plans(ctx, menu, MONS, conform=False)
+    # the loop's control skeleton (scripted relabel outputs, see C09): final states whose labels differ from the
+    # labels last fitted, incl. an emptied or singleton cluster, for every label sequence up to length 3
+    from checks.c09 import work_skeleton, SK_ALPHA
+    for r in ctx.pmap(work_skeleton, [(limit, [f], ("first",), ['C16']) for limit in (1, 2, 3) for f in sorted(SK_ALPHA)]):
+        ctx.take(r)
     ml.explore(ctx, ps)
     ctx.cov["exhaustive"] = True
     ctx.cov["rule"] = (
@@ -160,9 +165,18 @@ def run(ctx):
         "explicit run-length scan, tolerance 1e-10 x sum|terms|, must be finite. (b) every enumerated main-loop run: "
         "reported BIC vs recomputation from the final model state. non-trivial = sequences where some cluster "
         "contributes more than one run or is unused; matrices on the threshold; |log det| > 745")
+    ctx.cov["rule"] += (" Plus control-skeleton runs: the main loop with the relabel phase's output scripted, every label "
+                        "sequence over 5 labellings up to length 3 (final labels that differ from the labels last fitted, "
+                        "emptied and singleton clusters).")
 
 
 def replay(ctx, case):
+    if case.get("kind") == "skeleton":
+        from vlib import lib
+        lib.load("nojit")
+        from checks.c09 import work_skeleton
+        ctx.take(work_skeleton((case["limit"], [case["sequence"][0]], (case["draw"],), case.get("monitors", ['C16']))))
+        return
     from vlib import lib
     lib.load("nojit")
     k = case.get("kind")
